@@ -23,6 +23,8 @@ pub struct Outcome<T> {
     pub goals: Vec<Goal<T>>,
     /// deliberately wrong goals: the solver must refute them (vacuity guard)
     pub twins: Vec<Goal<T>>,
+    /// existential: the relation must be refutable (sat + native replay) on at least one feasible path
+    pub witnesses: Vec<Goal<T>>,
     pub cuts: Vec<CutSpec<T>>,
     /// goals that use the cuts (all later goals do once `use_cuts` is set)
     pub cut_from_goal: Option<usize>,
@@ -32,7 +34,7 @@ pub struct Outcome<T> {
 }
 impl<T: Scalar> Outcome<T> {
     pub fn new() -> Self {
-        Outcome { assumes: vec![], goals: vec![], twins: vec![], cuts: vec![], cut_from_goal: None, notes: vec![], structural: vec![] }
+        Outcome { assumes: vec![], goals: vec![], twins: vec![], witnesses: vec![], cuts: vec![], cut_from_goal: None, notes: vec![], structural: vec![] }
     }
     pub fn assume(&mut self, name: impl Into<String>, l: T, rel: Rel, r: T) {
         self.assumes.push(goal(name, l, rel, r));
@@ -50,6 +52,13 @@ impl<T: Scalar> Outcome<T> {
         let mut g = goal(name, l, rel, r);
         g.only_cuts = Some(prefixes.iter().map(|s| s.to_string()).collect());
         self.goals.push(g);
+    }
+    /// `l rel r` must fail somewhere: on at least one feasible path the solver must find a point
+    /// (replayed natively) where it does not hold
+    pub fn witness(&mut self, name: impl Into<String>, l: T, rel: Rel, r: T) {
+        let mut g = goal(name, l, rel, r);
+        g.pow = Some(PowEnc::Opaque);
+        self.witnesses.push(g);
     }
     pub fn twin_cuts(&mut self, name: impl Into<String>, l: T, rel: Rel, r: T, prefixes: &[&str]) {
         let mut g = goal(name, l, rel, r);
@@ -165,6 +174,7 @@ pub struct PartResult {
     pub paths_feasible: usize,
     pub paths_infeasible: usize,
     pub paths_panic_feasible: usize,
+    pub paths_without_goals: usize,
     pub branch_decisions: usize,
     pub queries_total: usize,
     pub queries_distinct: usize,
@@ -175,6 +185,8 @@ pub struct PartResult {
     pub definedness_proved: usize,
     pub twins_expected: usize,
     pub twins_refuted: usize,
+    pub witnesses_expected: usize,
+    pub witnesses_found: usize,
     pub validations: usize,
     pub solver_s: f64,
     pub wall_s: f64,
@@ -194,6 +206,7 @@ impl PartResult {
         self.paths_feasible += o.paths_feasible;
         self.paths_infeasible += o.paths_infeasible;
         self.paths_panic_feasible += o.paths_panic_feasible;
+        self.paths_without_goals += o.paths_without_goals;
         self.branch_decisions += o.branch_decisions;
         self.queries_total += o.queries_total;
         self.queries_distinct += o.queries_distinct;
@@ -204,6 +217,8 @@ impl PartResult {
         self.definedness_proved += o.definedness_proved;
         self.twins_expected += o.twins_expected;
         self.twins_refuted += o.twins_refuted;
+        self.witnesses_expected += o.witnesses_expected;
+        self.witnesses_found += o.witnesses_found;
         self.validations += o.validations;
         self.solver_s += o.solver_s;
         self.wall_s += o.wall_s;
@@ -262,7 +277,8 @@ fn leaf_names(nodes: &[Node], root: u32, cuts: &HashMap<u32, Cut>) -> BTreeSet<S
 }
 
 struct Cond {
-    /// (kind, index) for bookkeeping
+    /// a disequality (Eq atom decided false): never needed to prune a path
+    diseq: bool,
     nodes: [u32; 2],
     smt: Box<dyn Fn(&Emitted) -> String>,
     vars: BTreeSet<String>,
@@ -275,6 +291,7 @@ enum QKind {
     CutJustify { path: usize, name: String },
     Defined { path: usize, desc: String },
     Twin { path: usize, name: String },
+    Witness { path: usize, name: String },
 }
 
 /// constant goals decided without the solver: (path, goal name, holds)
@@ -373,6 +390,51 @@ pub fn replay_goal<H: Harness>(h: &H, name: &str, model: &BTreeMap<String, f64>,
     None
 }
 
+/// does the native run at (a completion of) `model` violate witness relation `name`?
+fn replay_witness<H: Harness>(h: &H, name: &str, model: &BTreeMap<String, f64>, seed: u64) -> bool {
+    let mut s = seed ^ 0x51ed27;
+    for attempt in 0..16 {
+        let mut m = model.clone();
+        if attempt > 0 {
+            for (_, v) in m.iter_mut() {
+                *v *= 1.0 + 1e-4 * (2.0 * lcg(&mut s) - 1.0);
+            }
+        }
+        let (o, panic, _) = native_run(h, &m, &mut s);
+        if panic.is_some() || !assumes_hold(&o) {
+            continue;
+        }
+        for g in o.witnesses.iter().filter(|g| g.name == name) {
+            if native_violation(g, 1e-9).is_some() {
+                return true;
+            }
+        }
+    }
+    false
+}
+
+/// native confirmation that witness relation `name` is never violated (64 random points)
+fn confirm_no_witness<H: Harness>(h: &H, name: &str, seed: u64) -> bool {
+    let mut s = seed ^ 0xabcdef;
+    let mut tried = 0;
+    for _ in 0..256 {
+        let (o, panic, _) = native_run(h, &BTreeMap::new(), &mut s);
+        if panic.is_some() || !assumes_hold(&o) {
+            continue;
+        }
+        tried += 1;
+        for g in o.witnesses.iter().filter(|g| g.name == name) {
+            if native_violation(g, 1e-9).is_some() {
+                return false;
+            }
+        }
+        if tried >= 64 {
+            break;
+        }
+    }
+    tried > 0
+}
+
 pub fn check_harness<H: Harness>(h: &H, cfg: &RunCfg) -> PartResult {
     let t0 = std::time::Instant::now();
     let mut res = PartResult { part: h.name(), harnesses: 1, ..Default::default() };
@@ -404,6 +466,8 @@ pub fn check_harness<H: Harness>(h: &H, cfg: &RunCfg) -> PartResult {
     let mut all_vars: BTreeSet<String> = BTreeSet::new();
     let mut path_groups: HashMap<usize, usize> = HashMap::new();
     let const_goals: RefCell<Vec<ConstGoal>> = RefCell::new(vec![]);
+    // witness relations whose two sides are the same term on a path (cannot be refuted there)
+    let witness_same: RefCell<Vec<(usize, String)>> = RefCell::new(vec![]);
 
     for (pi, p) in paths.iter().enumerate() {
         res.branch_decisions += p.taken.len();
@@ -427,6 +491,11 @@ pub fn check_harness<H: Harness>(h: &H, cfg: &RunCfg) -> PartResult {
             if !res.notes.contains(n) {
                 res.notes.push(n.clone());
             }
+        }
+        if o.goals.is_empty() && o.twins.is_empty() && o.witnesses.is_empty() && panic.is_none() && o.cuts.is_empty() {
+            // nothing is claimed on this path (e.g. an error return that another property covers)
+            res.paths_without_goals += 1;
+            continue;
         }
         let nodes = &p.nodes;
         let base_opts = h.emit_opts();
@@ -453,7 +522,7 @@ pub fn check_harness<H: Harness>(h: &H, cfg: &RunCfg) -> PartResult {
                 let (l, r, rel) = (g.lhs.0, g.rhs.0, g.rel);
                 let mut vars = leaf_names(nodes, l, cuts);
                 vars.extend(leaf_names(nodes, r, cuts));
-                v.push(Cond { nodes: [l, r], smt: Box::new(move |e: &Emitted| rel_smt(rel, e.n(l), e.n(r), fp)), vars, max_node: l.max(r) });
+                v.push(Cond { diseq: false, nodes: [l, r], smt: Box::new(move |e: &Emitted| rel_smt(rel, e.n(l), e.n(r), fp)), vars, max_node: l.max(r) });
             }
             for c in &o.cuts {
                 if !cuts.contains_key(&c.node.0) {
@@ -463,7 +532,7 @@ pub fn check_harness<H: Harness>(h: &H, cfg: &RunCfg) -> PartResult {
                     let (l, r, rel) = (g.lhs.0, g.rhs.0, g.rel);
                     let mut vars = leaf_names(nodes, l, cuts);
                     vars.extend(leaf_names(nodes, r, cuts));
-                    v.push(Cond { nodes: [l, r], smt: Box::new(move |e: &Emitted| rel_smt(rel, e.n(l), e.n(r), fp)), vars, max_node: c.node.0 });
+                    v.push(Cond { diseq: false, nodes: [l, r], smt: Box::new(move |e: &Emitted| rel_smt(rel, e.n(l), e.n(r), fp)), vars, max_node: c.node.0 });
                 }
             }
             for (a, val) in &p.taken {
@@ -471,7 +540,7 @@ pub fn check_harness<H: Harness>(h: &H, cfg: &RunCfg) -> PartResult {
                 let mut vars = leaf_names(nodes, l, cuts);
                 vars.extend(leaf_names(nodes, r, cuts));
                 let (a2, val2) = (a.clone(), *val);
-                v.push(Cond { nodes: [l, r], smt: Box::new(move |e: &Emitted| atom_smt(e, &a2, val2, fp)), vars, max_node: l.max(r) });
+                v.push(Cond { diseq: matches!(a, Atom::Eq(..)) && !*val && !fp, nodes: [l, r], smt: Box::new(move |e: &Emitted| atom_smt(e, &a2, val2, fp)), vars, max_node: l.max(r) });
             }
             v
         };
@@ -536,7 +605,9 @@ pub fn check_harness<H: Harness>(h: &H, cfg: &RunCfg) -> PartResult {
         //    each group is one query (cuts applied, opaque pow: an over-approximation, so `unsat`
         //    soundly prunes the path and `sat` only means "treated as feasible").
         {
-            let conds = mk_conds(&cutmap);
+            // disequalities cannot make a real-arithmetic path infeasible in any way that matters for
+            // pruning; leaving them out only prunes less
+            let conds: Vec<Cond> = mk_conds(&cutmap).into_iter().filter(|c| !c.diseq).collect();
             let mut comp: Vec<usize> = (0..conds.len()).collect();
             fn root(c: &mut Vec<usize>, i: usize) -> usize {
                 let mut r = i;
@@ -580,7 +651,7 @@ pub fn check_harness<H: Harness>(h: &H, cfg: &RunCfg) -> PartResult {
                 let mv: Vec<String> = e.vars.iter().cloned().collect();
                 all_vars.extend(leaf_names_all(nodes, &roots));
                 let text = build_query(&header, &e.text, &asserts, None, &mv);
-                queries.push(Query { label: format!("{} path{} feasible", h.name(), pi), text, timeout_s: timeout, model_vars: mv, expect_sat: None });
+                queries.push(Query { label: format!("{} path{} feasible", h.name(), pi), text, timeout_s: timeout.min(if cfg.tier == Tier::Quick { 10 } else { 30 }), model_vars: mv, expect_sat: None });
                 kinds.push(QKind::Feasible { path: pi, panic: panic.clone() });
                 n_groups += 1;
             }
@@ -609,8 +680,17 @@ pub fn check_harness<H: Harness>(h: &H, cfg: &RunCfg) -> PartResult {
             };
             let (l, r, rel) = (g.lhs.0, g.rhs.0, g.rel);
             let ng = move |e: &Emitted| rel_smt(rel, e.n(l), e.n(r), fp);
+            if l == r && kind != 3 {
+                // hash-consed terms: the two sides are the same term
+                const_goals.borrow_mut().push(ConstGoal { path: pi, name: g.name.clone(), holds: matches!(rel, Rel::Eq | Rel::Le), twin: kind == 1 });
+                return vec![];
+            }
+            if l == r && kind == 3 {
+                witness_same.borrow_mut().push((pi, g.name.clone()));
+                return vec![];
+            }
             let no_vars = leaf_names(nodes, l, cuts).is_empty() && leaf_names(nodes, r, cuts).is_empty();
-            if no_vars {
+            if no_vars && kind != 3 {
                 // both sides constant: decide exactly, no query (a false constant goal means
                 // "this path must be infeasible" and is settled by the feasibility verdict)
                 let cv = |i: u32| match &nodes[i as usize] {
@@ -630,10 +710,11 @@ pub fn check_harness<H: Harness>(h: &H, cfg: &RunCfg) -> PartResult {
                 }
             }
             let (text, mv, obl) = build(&[l, r], cuts, None, Some(&ng), no_vars, g.pow);
-            queries.push(Query { label: format!("{} path{} {}", h.name(), pi, g.name), text, timeout_s: timeout, model_vars: mv, expect_sat: Some(kind == 1) });
+            queries.push(Query { label: format!("{} path{} {}", h.name(), pi, g.name), text, timeout_s: timeout, model_vars: mv, expect_sat: Some(kind == 1 || kind == 3) });
             kinds.push(match kind {
                 0 => QKind::Goal { path: pi, name: g.name.clone() },
                 1 => QKind::Twin { path: pi, name: g.name.clone() },
+                3 => QKind::Witness { path: pi, name: g.name.clone() },
                 _ => QKind::CutJustify { path: pi, name: g.name.clone() },
             });
             obl
@@ -647,6 +728,9 @@ pub fn check_harness<H: Harness>(h: &H, cfg: &RunCfg) -> PartResult {
         }
         for g in &o.twins {
             emit_goal(g, None, 1, &mut queries, &mut kinds);
+        }
+        for g in &o.witnesses {
+            emit_goal(g, None, 3, &mut queries, &mut kinds);
         }
         // cut justification: each constraint of each cut, proved without cuts
         for c in &o.cuts {
@@ -738,9 +822,32 @@ pub fn check_harness<H: Harness>(h: &H, cfg: &RunCfg) -> PartResult {
         }
     }
     let path_of = |k: usize| match &kinds[k] {
-        QKind::Feasible { path, .. } | QKind::Goal { path, .. } | QKind::CutJustify { path, .. } | QKind::Defined { path, .. } | QKind::Twin { path, .. } => *path,
+        QKind::Feasible { path, .. } | QKind::Goal { path, .. } | QKind::CutJustify { path, .. } | QKind::Defined { path, .. } | QKind::Twin { path, .. } | QKind::Witness { path, .. } => *path,
     };
-    let stage2: Vec<usize> = (0..queries.len()).filter(|k| !matches!(kinds[*k], QKind::Feasible { .. }) && !pruned.contains(&path_of(*k))).collect();
+    // existential witnesses: first try the points the feasibility stage already produced
+    let mut stage1_models: HashMap<usize, BTreeMap<String, f64>> = HashMap::new();
+    for (j, k) in stage1.iter().enumerate() {
+        if let (QKind::Feasible { path, .. }, Answer::Sat(m)) = (&kinds[*k], &v1[j].answer) {
+            stage1_models.entry(*path).or_default().extend(m.clone());
+        }
+    }
+    let mut witness_found_early: BTreeSet<String> = BTreeSet::new();
+    for k in 0..queries.len() {
+        if let QKind::Witness { path, name } = &kinds[k] {
+            if pruned.contains(path) || witness_found_early.contains(name) {
+                continue;
+            }
+            if let Some(m) = stage1_models.get(path) {
+                if replay_witness(h, name, m, cfg.seed) {
+                    witness_found_early.insert(name.clone());
+                }
+            }
+        }
+    }
+    let stage2: Vec<usize> = (0..queries.len())
+        .filter(|k| !matches!(kinds[*k], QKind::Feasible { .. }) && !pruned.contains(&path_of(*k)))
+        .filter(|k| !matches!(&kinds[*k], QKind::Witness { name, .. } if witness_found_early.contains(name)))
+        .collect();
     let q2: Vec<Query> = stage2.iter().map(|k| queries[*k].clone()).collect();
     let (v2, st2) = run_queries(&cfg.solver, &q2);
     let mut verdicts: Vec<Verdict> = (0..queries.len()).map(|_| Verdict { answer: Answer::Unknown("skipped: path infeasible".into()), secs: 0.0, dedup: true }).collect();
@@ -866,6 +973,7 @@ pub fn check_harness<H: Harness>(h: &H, cfg: &RunCfg) -> PartResult {
                 QKind::CutJustify { .. } => "cut",
                 QKind::Defined { .. } => "defined",
                 QKind::Twin { .. } => "twin",
+                QKind::Witness { .. } => "witness",
             };
             let e = by.entry(kind).or_insert((0, 0.0, 0.0));
             e.0 += 1;
@@ -876,12 +984,22 @@ pub fn check_harness<H: Harness>(h: &H, cfg: &RunCfg) -> PartResult {
         for (k, v) in verdicts.iter().enumerate() {
             if let Answer::Unknown(r) = &v.answer {
                 if !v.dedup {
-                    eprintln!("UNKNOWN {} feasible={:?} {}", queries[k].label, match &kinds[k] { QKind::Feasible { path, .. } | QKind::Goal { path, .. } | QKind::CutJustify { path, .. } | QKind::Defined { path, .. } | QKind::Twin { path, .. } => feasible.get(path) }, r);
+                    eprintln!("UNKNOWN {} feasible={:?} {}", queries[k].label, match &kinds[k] { QKind::Feasible { path, .. } | QKind::Goal { path, .. } | QKind::CutJustify { path, .. } | QKind::Defined { path, .. } | QKind::Twin { path, .. } | QKind::Witness { path, .. } => feasible.get(path) }, r);
                 }
             }
         }
     }
     let mut first_model: Option<BTreeMap<String, f64>> = None;
+    // witness name -> (refuted somewhere, #paths where it provably holds, #unknown)
+    let mut witness_state: BTreeMap<String, (bool, usize, usize)> = BTreeMap::new();
+    for name in &witness_found_early {
+        witness_state.insert(name.clone(), (true, 0, 0));
+    }
+    for (p, name) in witness_same.borrow().iter() {
+        if feasible.get(p) != Some(&false) {
+            witness_state.entry(name.clone()).or_insert((false, 0, 0)).1 += 1;
+        }
+    }
     for (k, v) in verdicts.iter().enumerate() {
         match &v.answer {
             Answer::Unsat => res.queries_unsat += 1,
@@ -934,6 +1052,26 @@ pub fn check_harness<H: Harness>(h: &H, cfg: &RunCfg) -> PartResult {
                     Answer::Unknown(r) => res.inconclusive.push(format!("{}: {}", q.label, r)),
                 }
             }
+            (QKind::Witness { path, name }, ans) => {
+                if feasible.get(path) == Some(&false) {
+                    continue;
+                }
+                let e = witness_state.entry(name.clone()).or_insert((false, 0usize, 0usize));
+                if let Answer::Unknown(r) = ans {
+                    if r.starts_with("skipped") {
+                        continue;
+                    }
+                }
+                match ans {
+                    Answer::Sat(m) => {
+                        if !e.0 && replay_witness(h, name, m, cfg.seed) {
+                            e.0 = true;
+                        }
+                    }
+                    Answer::Unsat => e.1 += 1,
+                    Answer::Unknown(_) => e.2 += 1,
+                }
+            }
             (QKind::Twin { path, name }, ans) => {
                 if feasible.get(path) == Some(&false) {
                     continue;
@@ -954,6 +1092,28 @@ pub fn check_harness<H: Harness>(h: &H, cfg: &RunCfg) -> PartResult {
         }
     }
 
+    for (name, (found, holds, unknown)) in &witness_state {
+        res.witnesses_expected += 1;
+        if *found {
+            res.witnesses_found += 1;
+        } else if *unknown > 0 {
+            res.inconclusive.push(format!("{}: witness {} undecided ({} paths unknown)", h.name(), name, unknown));
+        } else {
+            // the relation holds on every feasible path: the expected dependence does not exist
+            let confirmed = confirm_no_witness(h, name, cfg.seed);
+            if confirmed {
+                res.violations.push(Violation {
+                    goal: name.clone(),
+                    site: h.name(),
+                    witness_class: "no-witness".into(),
+                    desc: format!("'{}' holds on all {} feasible paths (solver) and at 64 native sample points: the expected dependence does not exist", name, holds),
+                    replay: json!({"harness": h.name(), "goal": name, "kind": "no-witness"}),
+                });
+            } else {
+                res.hard_failures.push(format!("{}: witness {} not found by the solver although native runs show it exists", h.name(), name));
+            }
+        }
+    }
     // ---- encoder validation: guided symbolic run vs native run at concrete points
     let mut s = cfg.seed.wrapping_add(12345);
     for vi in 0..h.n_validate() {
